@@ -59,7 +59,12 @@ def run(ctx):
             return vflib.sim_behaviours(r.emit_path)
         with concurrent.futures.ThreadPoolExecutor(max_workers=nsim) as ex2:
             tests = [t for ts in ex2.map(sim, range(nsim)) for t in ts]
-        ctx.log("simulation: %d behaviours, %d steps" % (len(tests), sum(len(t["steps"]) for t in tests)))
+        # directed scenarios (module WalletBalanceDir): plans followed step by step through WalletBalance!Next, all paths emitted
+        rd = ctx.tlc(SPEC, "WalletBalanceDir", "Dir.cfg", name="directed", workers=1, env=_wallet.LIGHT_JVM, timeout=1200)
+        directed = list(vflib.Graph(vflib.load_emitted(rd.emit_path)).path_cover())
+        ctx.extra["directed_behaviours"] = len(directed)
+        tests = directed + tests
+        ctx.log("simulation: %d behaviours (%d directed), %d steps" % (len(tests), len(directed), sum(len(t["steps"]) for t in tests)))
         res = ctx.run_harness(binary, "balance", tests, args=[ctx.seed], name="balance", env={"RANDOM_CTX_SEED": _wallet.seed_hex(ctx)})
         if fut:
             fut.result()
@@ -97,6 +102,11 @@ def run(ctx):
                 ev["states_with_mature_coinbase_coin"] += 1
             if a[0] in ("invalidate", "reconsider") and e["chain"] != prev_chain and prev_chain[:len(e["chain"])] != e["chain"]:
                 ev["reorg_to_other_branch"] += 1
+            # a transaction whose conflicts sat in two different blocks loses the upper one through a reorganisation and stays conflicted by the lower
+            if a[0] in ("invalidate", "reconsider") and si > 0:
+                before = t["steps"][si - 1]["exp"]
+                if [k for k in before.get("deep", []) if k in e["conflicted"] and k not in s["exp"].get("deep", [])] and len(e["chain"]) < len(before["chain"]):
+                    ev["deep_conflict_survives_partial_reorg"] += 1
             prev_chain = e["chain"]
             if a[0] in ("invalidate", "reconsider", "abandon", "evict") or e["conflicted"] or e["bal"]["pending"]:
                 ctx.nontrivial.add(vflib.digest([x["a"] for x in t["steps"][:si + 1]]))
@@ -131,7 +141,7 @@ def run(ctx):
                           dict(adapter="walletnode", mode="balance", args=[ctx.seed], case=dict(init=t["init"], steps=t["steps"][:si + 1]), observed=o["obs"]))
     ctx.extra["events"] = dict(sorted(ev.items()))
     need = ["act:submit", "act:send", "act:mine", "act:invalidate", "act:reconsider", "act:abandon", "act:evict", "states_with_conflicted_tx", "states_with_abandoned_tx",
-            "states_with_mempool_conflicted_tx", "states_with_immature", "states_with_untrusted_pending", "states_with_mature_coinbase_coin"]
+            "states_with_mempool_conflicted_tx", "deep_conflict_survives_partial_reorg", "states_with_immature", "states_with_untrusted_pending", "states_with_mature_coinbase_coin"]
     missing = [k for k in need if not ev.get(k)]
     if missing and not ctx.violations:
         raise vflib.InfraError("vacuity: the simulated behaviours never produced %s (events: %s)" % (missing, dict(ev)))
